@@ -16,7 +16,7 @@ RULE = (
     "asyncio.sleep inside mysensors.task replaced by a harness-resolved future, inline executor} x {json, pickle} "
     "x Hypothesis-generated states. Sequence: initial save, state change, FAULTY scheduled attempt, state change, "
     "clean attempt. The faulty attempt is enumerated exhaustively per state: every file operation of the save "
-    "failing with OSError, and every k-th call of the JSON encoder hook / Sensor.__getstate__ at which a "
+    "failing with OSError, every permission pre-check answering 'not writable', and every k-th call of the JSON encoder hook / Sensor.__getstate__ at which a "
     "concurrent message (adds a node / a child / a value) is processed. Oracle: after the faulty attempt a fresh "
     "load yields the previously saved state or a complete newer one (never partial); 'not marked unsaved' implies "
     "'file == current state'; nothing escapes the timer callback / the save task stays alive and a further "
@@ -232,7 +232,7 @@ class Injector:
 
 
 def scenario(case, fault, stats=None, tmp=None):
-    """fault: ('oserror', k) | ('concurrent', k, line) | ('none',). Returns #ops/#hook calls seen."""
+    """fault: ('oserror', k) | ('denied', k) | ('concurrent', k, line) | ('none',). Returns #ops/#hook calls seen."""
     version, ext, flavour = case["version"], case["ext"], case["flavour"]
     path = os.path.join(tmp, f"net.{ext}")
     persist.restore(tmp, {})
@@ -256,6 +256,11 @@ def scenario(case, fault, stats=None, tmp=None):
                 escaped = life.attempt()
             count = len(layer.trace)
             fired = plan.fired
+        elif fault[0] == "denied":
+            with faultfs.Layer(deny_access={fault[1]}) as layer:
+                escaped = life.attempt()
+            count = layer.access_calls
+            fired = layer.denied
         elif fault[0] == "concurrent":
             with Injector(life, fault[1], fault[2]) as inj:
                 escaped = life.attempt()
@@ -268,6 +273,7 @@ def scenario(case, fault, stats=None, tmp=None):
                 escaped = life.attempt()
             count = len(layer.trace)
             fired = True
+            case["_access_calls"] = layer.access_calls
         if escaped == "not-armed":
             raise Violation(f"no_attempt_armed.{flavour}", full_case, f"{where}: no scheduled save was armed after start_persistence")
         if not fired:
@@ -340,6 +346,10 @@ def check_case(case, stats=None, only=None, collect=None):
                 stats.case(f"{key}:os:{k}" if 0 < k < n_ops - 1 else None,
                            {"flavour": case["flavour"], "ext": case["ext"], "fault": ["oserror", k], "of": n_ops} if k % 23 == 0 else None,
                            labels=(case["flavour"], case["ext"], "oserror"))
+        for k in range(case.pop("_access_calls", 0)):
+            _, fired = run(("denied", k))
+            if stats is not None and fired:
+                stats.case(f"{key}:denied:{k}", {"flavour": case["flavour"], "ext": case["ext"], "fault": ["denied", k]}, labels=(case["flavour"], case["ext"], "permission-denied"))
         for line in CONCURRENT:
             k = 0
             while True:
